@@ -38,6 +38,10 @@ def api_obs(tag, chk, ops=None, checks="none", tier="quick"):
     add("ADDTSEC", "SECT", 3, extra=("NEWTITLE='B'",))
     add("ADDTSEC", "SECT", 3, extra=("NEWTITLE='C'",))
     add("ADDTSEC", "SECM", 1)
+    # case-insensitive context: a title that differs only in letter case names the existing section
+    add("ADDTSEC", "SECT", 2, extra=("NEWTITLE='b'", "CTXF=4"))
+    add("ADDTSEC", "SECT", 2, extra=("NEWTITLE='D'", "CTXF=4"))
+    add("RMTSEC", "SECT", 2, extra=("CTXF=4",))
     # wrong type: a titled-section add on a scalar / list option (the title text would convert as a value)
     add("ADDTSEC", "INT", 1, extra=("NEWTITLE='5'",))
     add("ADDTSEC", "STR", 1, extra=("NEWTITLE='5'",))
